@@ -98,3 +98,26 @@ def run(ctx):
     borrow(ctx, 'C11', ['WH-RESTORE'], 'a header rewrite in SFM_RDWR mode must leave the file position where the next read / write expects it')
     borrow(ctx, 'C04', ['WH-CALC'], 'in SFM_RDWR mode the header update must take its lengths from the real file, not from the current position')
 
+    ctx.rule('OPEN-NO-NEW-CHUNK', 'the container open functions add a default PEAK chunk (psf->peak_info = peak_info_calloc ...) only for a file that is being created (guarded by '
+             'psf->file.mode == SFM_WRITE): an existing file opened SFM_RDWR has no room for a chunk its header did not have, its header could never be rewritten again', floor=3)
+    from engine.util import assigned_lvalues as _al8
+    n8 = 0
+    for g in sorted(prog.lib_fns(), key=lambda g: (g.file, g.line)):
+        if not g.name.endswith('_open'):
+            continue
+        for lv, a, r in _al8(g):
+            if lv != 'psf->peak_info' or r is None or g.unwrap(r).get('callee') != 'peak_info_calloc':
+                continue
+            conds = [g.s(x['cond']) for x in g.ancestors(a) if x['k'] == 'IfStmt' and g.within(a, x['then'])]
+
+            def conj8(n_):
+                n_ = g.unwrap(n_)
+                if n_.get('k') == 'BinaryOperator' and n_.get('op') == '&&':
+                    return conj8(g.N[n_['kids'][0]]) + conj8(g.N[n_['kids'][1]])
+                return [g.s(n_)]
+            ok = any('(psf->file.mode == SFM_WRITE)' in conj8(g.N[x['cond']]) for x in g.ancestors(a) if x['k'] == 'IfStmt' and g.within(a, x['then']))
+            n8 += 1
+            ctx.ob('OPEN-NO-NEW-CHUNK', g.name, ok, g.loc(a), 'default PEAK record %s' % ('only when the file is created (SFM_WRITE)' if ok else
+                   'also for an existing file opened SFM_RDWR (guards: %s): the header grows by a PEAK chunk there is no room for, every later header rewrite is refused and appended frames never appear in the header' % [c_[:70] for c_ in conds]), None)
+    ctx.require(n8 >= 3, 'only %d default PEAK allocations found in open functions' % n8)
+
